@@ -13,7 +13,7 @@ git -C /repo worktree add --detach $WT HEAD -q || exit 2
 export GOFLAGS=-mod=mod GOPROXY=off
 cd $WT
 pkgdir() { case "$(grep -m1 '^package' "$1" | awk '{print $2}')" in
-  scorch) echo index/scorch;; gtreap) echo index/upsidedown/store/gtreap;; moss) echo index/upsidedown/store/moss;;
+  scorch) echo index/scorch;; gtreap) echo index/upsidedown/store/gtreap;; moss) echo index/upsidedown/store/moss;; metrics) echo index/upsidedown/store/metrics;; boltdb) echo index/upsidedown/store/boltdb;; goleveldb) echo index/upsidedown/store/goleveldb;; mapping) echo mapping;; query) echo search/query;;
   upsidedown) echo index/upsidedown;; searcher) echo search/searcher;; collector) echo search/collector;;
   zz_demo) mkdir -p zz_demo; echo zz_demo;; *) echo .;; esac; }
 for f in $SRC/*_test.go; do d=$(pkgdir $f); cp $f $d/zz_$(basename $f); done
